@@ -41,6 +41,13 @@ SentFrom(e, from) ==
   IN SumOver([i \in idx |-> e.xfers[i].amt], idx)
 
 K(v) == (v.st.x * v.st.y) \div v.cfg.D
+
+\* TLC integers are 32-bit: a state whose reserves cannot be multiplied is outside what the
+\* specification can judge (no verdict is given there; the drivers keep histories inside it)
+SafeVamm(v) == /\ v.st.x >= 1 /\ v.st.y >= 1 /\ v.st.x <= 5000000 /\ v.st.y <= 5000000
+               /\ v.st.x <= MaxInt \div v.st.y
+               /\ \A i \in 1..Len(v.snaps) : v.snaps[i].x <= 5000000 /\ v.snaps[i].y <= 5000000
+SafeWorld(W) == \A v \in DOMAIN W.vamm : SafeVamm(W.vamm[v])
 PosOf(W, v, t) == W.eng.pos[v][t]
 Held(p) == p.exists /\ p.size # 0
 EngineVamm(W, v) == W.vamm[v].cfg.engine = "engine"
